@@ -2,6 +2,7 @@ import RsslVerif.Lemmas.Overload
 import RsslVerif.Lemmas.Conv
 import RsslVerif.Lemmas.OverloadLazy
 import RsslVerif.Lemmas.OverloadT
+import RsslVerif.Lemmas.OverloadCall
 import RsslVerif.Gen.ResolveShape
 import RsslVerif.Model.OverloadSrc
 /-!
@@ -13,7 +14,7 @@ candidate lists, arities and argument lists (no size bound), with the conversion
 -/
 namespace RsslVerif.Thm.C16
 open RsslVerif.Gen.RankTable RsslVerif.Model.Conv RsslVerif.Model.Overload RsslVerif.Spec.Overload
-open RsslVerif.Lemmas.Overload RsslVerif.Lemmas.Conv RsslVerif.Lemmas.OverloadT
+open RsslVerif.Lemmas.Overload RsslVerif.Lemmas.Conv RsslVerif.Lemmas.OverloadT RsslVerif.Lemmas.OverloadCall
 
 /-! ## facts about the extracted tables (a one-cell change of casting.rs breaks one of these) -/
 
@@ -379,7 +380,8 @@ theorem selectedG_is_viable {cands : List GCand} {args : List ETy} {i : Nat}
   exact ⟨g, hg, hi, rc, hv⟩
 
 /-- **A unique exact match is selected, candidates of every kind** — provided no candidate's instantiation panics
-    (it can: `Thm.C16.template_vector_of_vector_panics`). -/
+    (`GCand.inst` is an arbitrary function; for the declared overloads of the correspondence run the hypothesis is
+    discharged by `Thm.C16.templates_never_panic`). -/
 theorem unique_exact_selectedG {cands : List GCand} {args : List ETy}
     (hwf : ∀ g ∈ cands, WF g) (hid : (cands.map (·.id)).Nodup) (hnp : NoPanicG cands args)
     {g : GCand} (hg : g ∈ cands) (hex : ExactMatchG args g)
@@ -485,16 +487,21 @@ theorem explicit_args_exclude_plain_functions :
     resolveT [⟨0, [], [⟨.conc ⟨{}, .scalar .float32⟩, .in⟩], 1⟩] [.type ⟨{}, .scalar .float32⟩]
       [⟨⟨{}, .scalar .float32⟩, .lvalue⟩] = .unmatched := by decide
 
-/-- **Defect on the pinned tree** (known_findings.jsonl): a template that is merely *considered* panics the type
-    checker when `T` in `vector<T, n>` is bound to a non-scalar — here `T = float3` deduced from the first parameter.
-    Corpus lines replay it on the real code (`ir_types.rs: vector<..> inside vector`). -/
-theorem template_vector_of_vector_panics :
+/-- **Template arguments that do not fit the signature make the candidate not viable** (the defect
+    `template_vector_of_vector_panics` of the previous round, repaired by /repo 5dca4fc): with `T` bound to `float3` —
+    deduced from the first parameter or given explicitly — `vector<T, 2>` is no type, the template is dropped from the
+    candidate set, and the call resolves among the others (here: the ordinary overload is selected / nothing is left).
+    Corpus lines replay both on the real code. -/
+theorem template_vector_of_vector_not_viable :
     resolveT [⟨0, [.type], [⟨.tvar 0, .in⟩, ⟨.tvec 0 2, .in⟩], 2⟩, ⟨1, [], [⟨.conc ⟨{}, .vector .float32 3⟩, .in⟩,
       ⟨.conc ⟨{}, .vector .float32 2⟩, .in⟩], 2⟩] []
-      [⟨⟨{}, .vector .float32 3⟩, .lvalue⟩, ⟨⟨{}, .vector .float32 2⟩, .lvalue⟩] = .panic ∧
+      [⟨⟨{}, .vector .float32 3⟩, .lvalue⟩, ⟨⟨{}, .vector .float32 2⟩, .lvalue⟩] = .selected 1 ∧
     resolveT [⟨0, [.type], [⟨.tvec 0 2, .in⟩], 1⟩] [.type ⟨{}, .vector .float32 3⟩]
-      [⟨⟨{}, .vector .float32 2⟩, .lvalue⟩] = .panic := by decide
-
+      [⟨⟨{}, .vector .float32 2⟩, .lvalue⟩] = .unmatched ∧
+    -- a constant where the signature names a type (`b.Load<4>(0)`; was `todo!("Non-type template arguments")`)
+    rankG [⟨⟨{}, .scalar .uInt32⟩, .rvalue⟩]
+      ((TCand.mk 1000 [.type] [⟨.conc ⟨{}, .scalar .uInt32⟩, .in⟩, ⟨.tvar 0, .in⟩] 1).toG [.const]) = .notViable := by
+  decide
 
 /-- **`T` matches every argument exactly**: a template `f(T a)` called with any argument whose type is not an
     untyped literal (any value category, any qualifiers, scalars, vectors, matrices, structs, enums, arrays) is viable
@@ -503,16 +510,33 @@ theorem template_param_matches_exactly (id : Nat) (a : ETy) (h : NonLiteral a.ty
     rankG [a] ((TCand.mk id [.type] [⟨.tvar 0, .in⟩] 1).toG []) = .ranked id [⟨.exact, .exact⟩] :=
   tvar_in_param_matches_exactly id a h
 
-/-- templates whose parameters are concrete types or bare `T`s never reach a panic site, whatever the explicit
-    template arguments and the call: the instantiation panic needs a `vector<T, n>` / `matrix<T, x, y>` / `T[n]` parameter -/
-theorem simple_templates_never_panic (cands : List TCand) (h : ∀ c ∈ cands, SimpleTemplate c) (explicit : List TArg)
+/-- **The template half of `find_overload_casts` reaches no panic site** (the hypothesis `NoPanicG` of the theorems
+    above holds for every declared overload set): ordinary functions and function templates whose parameters are
+    concrete types, `T`, `vector<T, n>` or `matrix<T, x, y>` with declared template parameters of either kind, whatever
+    the explicit template arguments and the call.  Before /repo 5dca4fc this held for bare `T` parameters only. -/
+theorem templates_never_panic (cands : List TCand) (h : ∀ c ∈ cands, ScopedTemplate c) (explicit : List TArg)
     (args : List ETy) : NoPanicG (cands.map (TCand.toG explicit)) args := by
   intro g hg
   obtain ⟨c, hc, rfl⟩ := List.mem_map.mp hg
-  exact simple_template_never_panics c (h c hc) explicit args
+  exact scoped_template_never_panics c (h c hc) explicit args
 
-/-- hence for such overload sets a unique exact match is selected — no panic hypothesis -/
-theorem unique_exact_selectedT {cands : List TCand} (hs : ∀ c ∈ cands, SimpleTemplate c) (explicit : List TArg)
+/-- hence `find_function_type` on declared overloads never panics -/
+theorem resolveT_no_panic (cands : List TCand) (h : ∀ c ∈ cands, ScopedTemplate c) (explicit : List TArg)
+    (args : List ETy) : resolveT cands explicit args ≠ .panic := by
+  have hnp := templates_never_panic cands h explicit args
+  unfold resolveT resolveG resolveResults
+  have : (List.map (rankG args) (cands.map (TCand.toG explicit))).any CandResult.isPanic = false := by
+    rw [List.any_eq_false]
+    intro r hr
+    obtain ⟨g, hg, rfl⟩ := List.mem_map.mp hr
+    simp [hnp g hg]
+  rw [this]
+  simp only [Bool.false_eq_true, if_false]
+  unfold resolveRanked
+  split <;> simp
+
+/-- and a unique exact match is selected — no panic hypothesis -/
+theorem unique_exact_selectedT {cands : List TCand} (hs : ∀ c ∈ cands, ScopedTemplate c) (explicit : List TArg)
     {args : List ETy} (hid : (cands.map (·.id)).Nodup) {c : TCand} (hc : c ∈ cands)
     (hex : ExactMatchG args (c.toG explicit))
     (huniq : ∀ d ∈ cands, ExactMatchG args (d.toG explicit) → d.id = c.id) :
@@ -520,13 +544,113 @@ theorem unique_exact_selectedT {cands : List TCand} (hs : ∀ c ∈ cands, Simpl
   have h := unique_exact_selectedG (cands := cands.map (TCand.toG explicit)) (args := args)
     (fun g hg => by obtain ⟨d, _, rfl⟩ := List.mem_map.mp hg; exact tcand_wf explicit d)
     (by simpa [List.map_map, Function.comp_def, TCand.toG] using hid)
-    (simple_templates_never_panic cands hs explicit args)
+    (templates_never_panic cands hs explicit args)
     (List.mem_map.mpr ⟨c, hc, rfl⟩) hex
     (by
       intro g hg hge
       obtain ⟨d, hd, rfl⟩ := List.mem_map.mp hg
       exact huniq d hd hge)
   exact h
+
+/-- non-vacuity: a set with `vector<T, n>` / `matrix<T, x, y>` parameters and a value parameter is `ScopedTemplate` -/
+example : ∀ c ∈ [TCand.mk 0 [.type, .value] [⟨.tvar 0, .in⟩, ⟨.tvec 0 2, .out⟩] 2,
+    TCand.mk 1 [.type] [⟨.tmat 0 2 2, .in⟩, ⟨.conc ⟨{}, .scalar .int32⟩, .inOut⟩] 2], ScopedTemplate c := by
+  intro c hc
+  simp only [List.mem_cons, List.not_mem_nil, or_false] at hc
+  rcases hc with rfl | rfl <;> intro p hp <;> simp only [List.mem_cons, List.not_mem_nil, or_false] at hp <;>
+    rcases hp with rfl | rfl <;> simp
+
+/-! ## the call after the resolution: `apply_casts`, `check_output_arguments` (/repo b359800, 3758fdd) -/
+
+/-- **An out or inout argument can not be the result of a conversion.**  For any signature and arguments with the
+    casts `find_overload_casts` found: `check_output_arguments` passes iff every argument given for an `out` / `inout`
+    parameter is a non-const lvalue whose type *is* the parameter's type.  (`find` allows two other conversions to an
+    lvalue destination — scalar ↔ 1-vector of the same scalar kind, and an added qualifier; both now end in
+    "lvalue is required".) -/
+theorem output_arguments_checked (ps : List Param) (as : List ETy) (cs : List Conversion)
+    (h : zipFind ps as = .ok (some cs)) : checkOutputs ps cs = none ↔ OutputsExact ps as :=
+  checkOutputs_none_iff ps as cs h
+
+/-- **Order independence of the verdict on the whole call** (resolution, then the output-argument check): accepted
+    with the same overload / refused for the same reason / ambiguous between the same overloads / unmatched, under
+    every permutation of the declaration order — for declared overloads of every kind and any explicit template
+    arguments.  `callT` follows the evaluation order of the source (`resolveTLazy`). -/
+theorem callT_perm {cands cands' : List TCand} (h : List.Perm cands cands') (explicit : List TArg) (args : List ETy)
+    (hid : (cands.map (·.id)).Nodup) :
+    (callT cands explicit args).normalize = (callT cands' explicit args).normalize := by
+  rw [callT_eq_finish_resolveT cands explicit args hid,
+      callT_eq_finish_resolveT cands' explicit args ((h.map (·.id)).nodup_iff.mp hid)]
+  exact finishCall_perm h hid explicit args (resolveG_perm_normalized (h.map _) args)
+
+/-- **An accepted call names the overload the resolution selected**, so `selectedG_is_viable` /
+    `selectedG_not_dominated` speak about every accepted call; and its `out` / `inout` arguments are mutable lvalues of
+    exactly the (instantiated) parameter types. -/
+theorem callT_accepted {cands : List TCand} {explicit : List TArg} {args : List ETy} {i : Nat}
+    (hid : (cands.map (·.id)).Nodup) (h : callT cands explicit args = .accepted i) :
+    resolveT cands explicit args = .selected i ∧
+    ∃ c ∈ cands, c.id = i ∧ ∃ ps, c.inst explicit args = .ok (some ps) ∧ OutputsExact ps args := by
+  rw [callT_eq_finish_resolveT cands explicit args hid] at h
+  cases hr : resolveT cands explicit args with
+  | selected j =>
+    rw [hr] at h
+    simp only [finishCall] at h
+    split at h
+    · simp at h
+    · rename_i ps casts hsel
+      split at h
+      · simp at h
+      · rename_i hchk
+        simp only [CallOutcome.accepted.injEq] at h
+        subst h
+        refine ⟨rfl, ?_⟩
+        unfold selectedCasts at hsel
+        split at hsel
+        · simp at hsel
+        · rename_i c hfind
+          have hc := List.mem_of_find?_eq_some hfind
+          have hci : c.id = j := by simpa using List.find?_some hfind
+          split at hsel
+          · rename_i ps' hinst
+            split at hsel
+            · rename_i casts' hz
+              simp only [Option.some.injEq, Prod.mk.injEq] at hsel
+              obtain ⟨rfl, rfl⟩ := hsel
+              exact ⟨c, hc, hci, ps', hinst, (checkOutputs_none_iff ps' args casts' hz).mp hchk⟩
+            · simp at hsel
+          · simp at hsel
+  | ambiguous l => rw [hr] at h; simp [finishCall] at h
+  | unmatched => rw [hr] at h; simp [finishCall] at h
+  | panic => rw [hr] at h; simp [finishCall] at h
+
+/-- a refused call was resolved: the refusal comes after `find_function_type` selected an overload, and never turns an
+    ambiguous or unmatched call into something else -/
+theorem callT_refused {cands : List TCand} {explicit : List TArg} {args : List ETy} {e : OutErr}
+    (hid : (cands.map (·.id)).Nodup) (h : callT cands explicit args = .refused e) :
+    ∃ i, resolveT cands explicit args = .selected i := by
+  rw [callT_eq_finish_resolveT cands explicit args hid] at h
+  cases hr : resolveT cands explicit args with
+  | selected j => exact ⟨j, rfl⟩
+  | ambiguous l => rw [hr] at h; simp [finishCall] at h
+  | unmatched => rw [hr] at h; simp [finishCall] at h
+  | panic => rw [hr] at h; simp [finishCall] at h
+
+/-- recorded readings (corpus lines replay them on the real code): an `int` lvalue for `out int1` (and `int1` for
+    `inout int`) is ranked Exact/Exact by the resolution, the overload is selected — and the call is then refused,
+    because the reshaped argument is an rvalue; next to an `in` overload of the argument's own type the call is
+    *ambiguous* (both Exact/Exact), not rescued; with the argument's own type as the `out` parameter it is accepted. -/
+theorem out_vec1_is_refused :
+    let i : List ETy := [⟨⟨{}, .scalar .int32⟩, .lvalue⟩]
+    let i1 : List ETy := [⟨⟨{}, .vector .int32 1⟩, .lvalue⟩]
+    let fOut1 : TCand := ⟨0, [], [⟨.conc ⟨{}, .vector .int32 1⟩, .out⟩], 1⟩
+    let fInOut : TCand := ⟨0, [], [⟨.conc ⟨{}, .scalar .int32⟩, .inOut⟩], 1⟩
+    let fIn : TCand := ⟨1, [], [⟨.conc ⟨{}, .scalar .int32⟩, .in⟩], 1⟩
+    let fOut : TCand := ⟨2, [], [⟨.conc ⟨{}, .scalar .int32⟩, .out⟩], 1⟩
+    resolveT [fOut1] [] i = .selected 0 ∧ callT [fOut1] [] i = .refused .lvalueRequired ∧
+    callT [fInOut] [] i1 = .refused .lvalueRequired ∧
+    callT [fOut1, fIn] [] i = .ambiguous [0, 1] ∧ callT [fIn, fOut1] [] i = .ambiguous [1, 0] ∧
+    callT [fOut] [] i = .accepted 2 ∧
+    -- through a template: `template<typename T> f(out T)` binds `T = int1` for an `int1` argument: accepted
+    callT [⟨3, [.type], [⟨.tvar 0, .out⟩], 1⟩] [] i1 = .accepted 3 := by decide
 
 /-! ## the tie of the hand-written model to the source text
 
@@ -538,7 +662,12 @@ theorem unique_exact_selectedT {cands : List TCand} (hs : ∀ c ∈ cands, Simpl
     minimum is taken with `<` and exactly the minimal ones are kept; one ⇒ selected, several ⇒ ambiguous, none ⇒
     unmatched; template arguments: too many ⇒ not viable, explicit first, the first parameter that infers wins, value
     parameters are never inferred, every argument is normalized, template arguments on an ordinary function ⇒ not
-    viable; the `zip` loop over `ImplicitConversion::find` stops at the first failure; the innermost scope that knows the
+    viable; an instantiation that cannot be built (`build_function_template_signature` / `build_intrinsic_template`
+    return `None`, which `apply_templates` does as soon as one parameter type or the return type cannot be formed) ⇒ not
+    viable; the `zip` loop over `ImplicitConversion::find` stops at the first failure; `write_function` and
+    `write_method` apply the casts and then check the output arguments of the selected overload;
+    `ImplicitConversion::apply` returns the expression itself only when there is no dimension, primary or modifier cast
+    and otherwise an `Expression::Cast`, whose type is an rvalue; the innermost scope that knows the
     name supplies the whole overload list, in insertion order; a struct supplies all its methods of that name; an
     intrinsic object all its functions of that name; `find_function_type` is called from `write_function` and
     `write_method` only -/
@@ -551,19 +680,26 @@ theorem resolve_shape_as_modelled :
         oneSelectedSeveralAmbiguousElseUnmatched := true, tooManyTemplateArgsNotViable := true,
         explicitArgsFirstThenInferredValueParamsNever := true, firstParameterThatInfersWins := true,
         everyTemplateArgIsNormalized := true, templateArgsOnPlainFunctionNotViable := true,
-        zipFindStopsAtFirstFailure := true, innermostScopeWithTheNameWins := true,
+        zipFindStopsAtFirstFailure := true, uninstantiableTemplateNotViable := true,
+        signatureSubstitutionFailsAsAWhole := true, templateInstantiationPropagatesTheFailure := true,
+        intrinsicInstantiationPropagatesTheFailure := true, functionCallChecksOutputsAfterCasts := true,
+        methodCallChecksOutputsAfterCasts := true, applyKeepsTheExpressionOnlyWithoutAnyCast := true,
+        aCastIsAnRvalue := true, innermostScopeWithTheNameWins := true,
         scopeContributesItsOwnFunctionsOnly := true, overloadsAreAppended := true,
         methodsAreAllMethodsOfThatName := true } ∧
     RsslVerif.Gen.ResolveShape.callers = ["write_function", "write_method"] ∧
     RsslVerif.Gen.ResolveShape.objectMethodsAreAllFunctionsOfThatName = true := by decide
 
-/-- the four transcribed functions are, character for character (comments and white space aside), the text the model
+/-- the seven transcribed functions are, character for character (comments and white space aside), the text the model
     was transcribed from -/
 theorem resolve_source_as_transcribed :
     RsslVerif.Gen.ResolveShape.findFunctionTypeSrc = RsslVerif.Model.OverloadSrc.findFunctionType ∧
     RsslVerif.Gen.ResolveShape.findOverloadCastsSrc = RsslVerif.Model.OverloadSrc.findOverloadCasts ∧
     RsslVerif.Gen.ResolveShape.tryInferTemplateTypeSrc = RsslVerif.Model.OverloadSrc.tryInferTemplateType ∧
-    RsslVerif.Gen.ResolveShape.normalizeTemplateTypeSrc = RsslVerif.Model.OverloadSrc.normalizeTemplateType :=
-  ⟨rfl, rfl, rfl, rfl⟩
+    RsslVerif.Gen.ResolveShape.normalizeTemplateTypeSrc = RsslVerif.Model.OverloadSrc.normalizeTemplateType ∧
+    RsslVerif.Gen.ResolveShape.applyTemplateTypeSubstitutionSrc = RsslVerif.Model.OverloadSrc.applyTemplateTypeSubstitution ∧
+    RsslVerif.Gen.ResolveShape.checkOutputArgumentsSrc = RsslVerif.Model.OverloadSrc.checkOutputArguments ∧
+    RsslVerif.Gen.ResolveShape.checkMutablePlaceSrc = RsslVerif.Model.OverloadSrc.checkMutablePlace :=
+  ⟨rfl, rfl, rfl, rfl, rfl, rfl, rfl⟩
 
 end RsslVerif.Thm.C16
